@@ -24,6 +24,7 @@ OUTCOMES = {
     'scalar-body': {'kind': 'body', 'body': '17'}, 'identity': {'kind': 'identity'}, 'base-exc': {'kind': 'base'},
 }
 NAMES = sorted(OUTCOMES)
+RETURNS = ('ok', 'code', 'ok-body', 'ok-identity')     # per-attempt outcomes after which the attempt returns (traced as 'end')
 
 
 # the ways a caller can start a request and hand over a trace context
@@ -63,7 +64,7 @@ class C19(Check):
                         'kind/notification', 'client/sync', 'client/async', 'attempts>=2', 'outcome/base-exc', 'outcome/identity',
                         'outcome/not-json', 'outcome/not-response', 'entry/send', 'entry/call', 'entry/proxy', 'entry/notify',
                         'entry/batch.call', 'entry/batch.proxy()', 'entry/batch.proxy.call', 'caller/inside-except-block',
-                        'tracer-style/super', 'tracer-style/partial', 'tracer-style/logging-first', 'tracer-style/instance-hooks']
+                        'tracer-style/super', 'tracer-style/partial', 'tracer-style/logging-first', 'tracer-style/instance-hooks', 'strict/on', 'strict/off']
 
     def _words(self, maxn: int, shard: int = 0, nshards: int = 1):
         i = 0
@@ -77,7 +78,7 @@ class C19(Check):
                     yield {'client': client, 'request': rk, 'tracers': (i // 3) % 4,
                            'ctx': ['caller', 'default'][(i // 12) % 2], 'strategy': strategy_for(n) if n or i % 5 else None,
                            'outcomes': list(word), 'entry': ENTRIES[rk][(i // 7) % len(ENTRIES[rk])], 'in_handler': i % 5 == 0,
-                           'tracer_style': TRACER_STYLES[(i // 3) % len(TRACER_STYLES)]}
+                           'tracer_style': TRACER_STYLES[(i // 3) % len(TRACER_STYLES)], 'strict': (i // 2) % 4 != 0}
 
     def enumerate(self, tier: str):
         return self._words(2) if tier == 'quick' else None
@@ -95,6 +96,7 @@ class C19(Check):
     def strategy(self, tier: str):
         return st.builds(
             lambda c, r, t, x, n, o, e: {'client': c, 'request': r, 'tracers': t, 'ctx': x, 'strategy': strategy_for(n) if n is not None else None, 'outcomes': o,
+                                         'strict': (e + t + len(o[0])) % 3 != 0,
                                          'entry': ENTRIES[r][e % len(ENTRIES[r])], 'in_handler': e >= 8, 'tracer_style': TRACER_STYLES[(e + t) % len(TRACER_STYLES)]},
             st.sampled_from(['sync', 'async']), st.sampled_from(['single', 'batch', 'notification']), st.integers(0, 3),
             st.sampled_from(['caller', 'default']), st.sampled_from([None, 0, 1, 2, 3]), st.lists(st.sampled_from(NAMES), min_size=4, max_size=4),
@@ -103,13 +105,17 @@ class C19(Check):
 
     def run_case(self, spec: Any) -> Outcome:
         kind, rkind = spec['client'], spec['request']
+        strict = spec.get('strict', True)
         outcomes = [dict(OUTCOMES[n]) for n in spec['outcomes']]
         names = list(spec['outcomes'])
         for o in outcomes:
             if rkind == 'notification' and o['kind'] in ('code', 'identity'):
                 o['kind'] = 'ok'
             if rkind == 'notification' and o['kind'] == 'body':
-                o['kind'] = 'notify-body'   # strict client: BaseError("unexpected response")
+                # strict client: BaseError("unexpected response"); a non-strict client ignores whatever came back for a notification
+                o['kind'] = 'notify-body' if strict else 'ok-body'
+            if o['kind'] == 'identity' and not strict:
+                o['kind'] = 'ok-identity'   # a non-strict client does not compare ids: the attempt returns the response
         s = spec['strategy']
         sends, _, final_idx = ch.retry_model(s, outcomes, 'single' if rkind != 'notification' else 'notification')
         if rkind == 'batch':
@@ -125,7 +131,7 @@ class C19(Check):
             if o['kind'] == 'base':
                 raised[k] = ch.EXC['CancelledError' if kind == 'async' else 'HarnessBaseExc'](f"attempt {k}")
                 raise raised[k]
-            if o['kind'] in ('body', 'notify-body'):
+            if o['kind'] in ('body', 'notify-body', 'ok-body'):
                 return o['body']
             if is_notification:
                 return None
@@ -134,7 +140,7 @@ class C19(Check):
             out = []
             for n, el in enumerate(els):
                 rid = el['id']
-                if o['kind'] == 'identity' and n == 0:
+                if o['kind'] in ('identity', 'ok-identity') and n == 0:
                     rid = 'other-id'
                 if o['kind'] == 'code' and n == 0:
                     out.append({'jsonrpc': '2.0', 'id': rid, 'error': {'code': o['code'], 'message': 'e', 'data': {'attempt': k}}})
@@ -151,6 +157,8 @@ class C19(Check):
             tracers = [LoggingTracer()] + tracers
         partial = style == 'partial'
         kwargs: Dict[str, Any] = {'tracers': tracers}
+        if not strict:
+            kwargs['strict'] = False
         if s is not None:
             kwargs['retry_strategy'] = ch.build_strategy(s)
         client = ch.make_client(kind, transport, **kwargs)
@@ -214,7 +222,7 @@ class C19(Check):
                 value, exc = None, e
 
         discs: List[Disc] = []
-        where = f"client={kind} request={rkind} entry={entry} tracers={spec['tracers']} style={spec.get('tracer_style', 'full')} ctx={spec['ctx']} attempts={s['attempts'] if s else None} outcomes={names}"
+        where = f"client={kind} strict={strict} request={rkind} entry={entry} tracers={spec['tracers']} style={spec.get('tracer_style', 'full')} ctx={spec['ctx']} attempts={s['attempts'] if s else None} outcomes={names}"
         T = spec['tracers']
         n_sent = len(client.sent)
         if n_sent != sends:
@@ -226,7 +234,7 @@ class C19(Check):
         # per attempt structure (a 'partial' tracer does not record error completions: it inherits the library's no-op on_error,
         # so a failing attempt leaves just its begin events - and in particular no 'end')
         def attempt_returns(k: int) -> bool:
-            return outcomes[min(k, len(outcomes) - 1)]['kind'] in ('ok', 'code')
+            return outcomes[min(k, len(outcomes) - 1)]['kind'] in RETURNS
         sizes = [T * (2 if (attempt_returns(k) or not partial) else 1) for k in range(n_sent)]
         expected_len = sum(sizes)
         if len(log) != expected_len:
@@ -237,7 +245,7 @@ class C19(Check):
                 block = log[pos:pos + sizes[k]]
                 pos += sizes[k]
                 o = outcomes[min(k, len(outcomes) - 1)]
-                returns = o['kind'] in ('ok', 'code')
+                returns = o['kind'] in RETURNS
                 want_kind = 'end' if returns else 'error'
                 kinds = [e[0] for e in block]
                 idxs = [e[1] for e in block]
@@ -270,7 +278,7 @@ class C19(Check):
                             discs.append(Disc("C19/end-event-carries-other-response", f"caller {value!r}, tracer {e[5]!r} | {where}"))
         final = outcomes[min(final_idx, len(outcomes) - 1)]
         if n_sent == sends:
-            if final['kind'] in ('ok', 'code'):
+            if final['kind'] in RETURNS:
                 if unwraps and final['kind'] == 'code' and rkind != 'notification':
                     # call / proxy notations raise the error the (returned, traced as 'end') response carries
                     if not isinstance(exc, pjrpc.exc.JsonRpcError) or exc.code != final['code']:
@@ -297,7 +305,7 @@ class C19(Check):
             if second:
                 if any(getattr(e[3], 'mark_left_by_first_request', False) for e in second) or ({e[2] for e in second} & first_ctx_ids):
                     discs.append(Disc("C19/default-context-shared-between-requests", f"the second request's tracer events carry a context of the first request | {where}"))
-        classes = [f"tracers/{T}", f"ctx/{spec['ctx']}", f"kind/{rkind}", f"client/{kind}", f"entry/{entry}", f"tracer-style/{style}"] + (['caller/inside-except-block'] if spec.get('in_handler') else [])
+        classes = ['strict/on' if strict else 'strict/off', f"tracers/{T}", f"ctx/{spec['ctx']}", f"kind/{rkind}", f"client/{kind}", f"entry/{entry}", f"tracer-style/{style}"] + (['caller/inside-except-block'] if spec.get('in_handler') else [])
         if n_sent >= 2:
             classes.append('attempts>=2')
         used = names[:max(n_sent, 1)]
